@@ -283,6 +283,8 @@ type Req struct {
 	Sym     plugin.Symbolizer
 	UI      *UI
 	Writer  *Writer
+	// StdUI: leave Options.UI unset, so that pprof prints its messages itself (to the process's stderr)
+	StdUI bool
 	// OSWriter: leave Options.Writer unset, so that pprof writes output files itself (relative to the working directory)
 	OSWriter bool
 	Fetcher  *Fetcher
@@ -381,6 +383,9 @@ func run(q Req, capture bool) *Res {
 	o := &plugin.Options{Writer: w, Flagset: fs, UI: ui, Obj: q.Obj, Sym: q.Sym, HTTPServer: q.HTTP, HTTPTransport: q.RT}
 	if q.OSWriter {
 		o.Writer = nil
+	}
+	if q.StdUI {
+		o.UI = nil
 	}
 	if !q.NoFetch {
 		o.Fetch = fe
